@@ -305,7 +305,7 @@ fn random_gene(rng: &mut SmallRng, pool: &[PushInstruction]) -> PushGene {
         28..=35 => PushInstruction::push_float(OrderedFloat(*FLT_POOL.choose(rng).expect("pool"))).into(),
         36..=42 => PushInstruction::push_bool(rng.random()).into(),
         43..=47 => push::instruction::variable_name::VariableName::from(
-            *["x", "y", "b"].choose(rng).expect("names"),
+            *["x", "y", "b", "X"].choose(rng).expect("names"),
         )
         .into(),
         48..=50 => PushInstruction::PrintString(push::instruction::printing::PrintString(
@@ -346,6 +346,7 @@ pub fn random_config(rng: &mut SmallRng, pool: &[PushInstruction]) -> (Value, Va
         "x": {"f": "int", "o": "push", "v": phi(*INT_POOL.choose(rng).expect("pool")).expect("w")},
         "y": {"f": "flt", "o": "push", "v": psi(*FLT_POOL.choose(rng).expect("pool")).expect("g")},
         "b": {"f": "bool", "o": "push", "v": rng.random::<bool>()},
+        "X": {"f": "int", "o": "push", "v": phi(*INT_POOL.choose(rng).expect("pool")).expect("w")},
     });
     let limit = rng.random_range(0..=60usize);
     (sv, max, inputs, limit)
